@@ -238,7 +238,7 @@ def scripts(rng, n, negatives=0):
 
 def run_delta_eps(ctx):
     rng = ctx.rng
-    for i in range(ctx.n(8000, 120000)):
+    for i in range(ctx.n(8000, 480000)):
         arrays = i % 3 == 2
         fam = rng.choice(ARRAY_FAMILIES if arrays else SCALAR_FAMILIES)
         cls_name = 'MatrixGrader' if arrays else rng.choice(['FormulaGrader', 'MatrixGrader', 'FormulaGrader'])
@@ -279,7 +279,7 @@ def run_delta_eps(ctx):
 def run_branches(ctx):
     """abs(x) vs x / sqrt(x^2) vs x with k negative scripted samples: exactly k samples fail."""
     rng = ctx.rng
-    for i in range(ctx.n(4800, 60000)):
+    for i in range(ctx.n(4800, 240000)):
         n = rng.randint(1, 7)
         failable = rng.randint(0, 3)
         k = rng.choice([0, failable, failable + 1, min(n, failable + 2), n])
@@ -310,7 +310,7 @@ def run_rewrites(ctx):
     loose = [('x^2+1', '(x+1)^2-2*x'), ('3*x-y', 'x+x+x-y'), ('x*y+2', '(x+1)*y-y+2'), ('x^2+1', 'x*x+1'), ('3*x-y', '3*(x-y/3)')]
     fe = {'x^2+1': lambda x, y: x * x + 1, 'x*y+2': lambda x, y: x * y + 2, '3*x-y': lambda x, y: 3 * x - y,
           'x+i*y': lambda x, y: complex(x, y)}
-    for i in range(ctx.n(2400, 30000)):
+    for i in range(ctx.n(2400, 120000)):
         n = rng.randint(1, 6)
         xs, ys = scripts(rng, n)
         if i % 2 == 0:
